@@ -27,6 +27,18 @@ impl Tier {
     }
 }
 
+static DEEP: std::sync::atomic::AtomicBool = std::sync::atomic::AtomicBool::new(false);
+
+/// For the properties whose quick tier already runs the former thorough bounds: `note_tier` remembers whether the
+/// caller asked for the thorough tier, `deep()` lets the case generators pick an even deeper bound then.
+pub fn note_tier(t: Tier) {
+    DEEP.store(t == Tier::Thorough, std::sync::atomic::Ordering::Relaxed);
+}
+
+pub fn deep() -> bool {
+    DEEP.load(std::sync::atomic::Ordering::Relaxed)
+}
+
 pub fn verif_dir() -> PathBuf {
     std::env::var("VERIF_DIR").map(PathBuf::from).unwrap_or_else(|_| PathBuf::from("/verif"))
 }
